@@ -42,6 +42,12 @@ def run_c07(prop, tier):
         for k in (1, 3, 9):
             for lat in ([16, 40, 2], [16, 2, 40]):
                 recs.append({"sched": {"auth": 0, "ackAt": 1, "infoAt": 1, "lat": lat, "policy": pol}, "wstall": {"at": 15, "k": k, "release": 19}})
+    # ... the transport reopens only after routing has completed and the final packets were queued behind the half-written Keep Alive
+    # (discovery done at 17 s, everything at 19 s, transport stalled from the Keep Alive of 16 s until 24 s): the Transfer must still arrive whole
+    for pol in ("prompt", "never"):
+        for k in (1, 3, 9):
+            for lat in ([16, 1, 1], [4, 12, 2]):
+                recs.append({"sched": {"auth": 0, "ackAt": 1, "infoAt": 1, "lat": lat, "policy": pol}, "wstall": {"at": 15, "k": k, "release": 24}})
     # ... and with an echo that arrives in two pieces around the completion of a routing step (discovery done at 21 s: the echo of the
     # Keep Alive of 16 s starts at 19 s and is complete at 24 s -- in time), routing then outlasts the next deadlines
     for cut in (1, 3, 5, 9):
